@@ -8,9 +8,7 @@ from .respparse import pop3_split
 
 
 class PState(HState):
-    def __init__(self, cfg, prefix=None):
-        super().__init__(cfg, prefix)
-        self.pop = None  # dict(snapshot=[(uid,cid)], sizes={n:size}, deleted=set(), open=bool)
+    pop = None  # dict(snapshot=[(uid,cid)], sizes={n:size}, deleted=set(), open=bool); set by ev_pop_open (also from a prelude)
 
     # ---------------------------------------------------------------------------------------
     def _pop(self, line: str, multiline: bool):
